@@ -356,6 +356,15 @@ func runUnit(id string, u *Unit, bin, work, tier string, seed int64, shard int, 
 		args = append(args, "-test.run="+test, "-rapid.failfile="+abs, "-test.v")
 	case replay != "":
 		abs, _ := filepath.Abs(replay)
+		// a case that killed its worker is recorded as (test, rapid seed): re-run that test with that seed
+		var rec struct {
+			Test string `json:"test"`
+			Seed string `json:"rapid_seed"`
+		}
+		if b, err := os.ReadFile(abs); err == nil && json.Unmarshal(b, &rec) == nil && rec.Test != "" && rec.Seed != "" {
+			args = append(args, "-test.run=^"+rec.Test+"$", "-rapid.checks="+strconv.Itoa(u.checks(tier)), "-rapid.seed="+rec.Seed, "-test.v")
+			break
+		}
 		env = append(env, "VERIF_REPLAY_CASE="+abs)
 		args = append(args, "-test.run=^TestReplay$", "-test.v")
 	default:
